@@ -310,6 +310,171 @@ theorem call_never_other (cb : Option (Bytes → Option Bytes)) (provided : Byte
           simp only [hp, ↓reduceIte, CallOut.ok.injEq] at h
           exact ⟨r, unk, rfl, hv, h.1, by rw [← h.2]; exact ha, by rw [← h.1, ← h.2]; exact hp⟩
 
+/-! ### stream ends other than dispose: cancelled stream context, failing `Send` -/
+
+/-- The reports of a prefix of a history are a prefix of the reports of the history. -/
+theorem run_take_prefix (evs : List Ev) (n : Nat) : (run (evs.take n)).2 <+: (run evs).2 := by
+  have h := runFrom_append {} (evs.take n) (evs.drop n)
+  rw [List.take_append_drop] at h
+  unfold run
+  rw [h]
+  exact List.prefix_append _ _
+
+/-- However the call ends — cancelled context after any number of callbacks, a `Send` failing at
+any message, a resolver error, or not at all — the client has received a prefix of the
+availability / idle changes of the history: nothing invented, nothing reordered, nothing skipped. -/
+theorem ends_prefix (evs : List EvE) (c f : Option Nat) :
+    (runEnds evs c f).1 <+: (run (evs.map EvE.toEv)).2 := by
+  have key : ∀ evs' : List EvE, (∃ n, evs' = evs.take n) ∨ evs' = evs →
+      (runSync {} evs').1 <+: (run (evs.map EvE.toEv)).2 := by
+    intro evs' h
+    have h1 := (sync_reports evs').2
+    rcases h with ⟨n, hn⟩ | h
+    · subst hn
+      rw [List.map_take] at h1
+      exact h1.trans (run_take_prefix _ n)
+    · subst h; exact h1
+  unfold runEnds
+  cases c with
+  | none =>
+    have hk := key evs (Or.inr rfl)
+    cases f with
+    | none => cases h2 : (runSync {} evs).2 <;> simp [h2, hk]
+    | some k =>
+      by_cases hlt : k < (runSync {} evs).1.length
+      · simp only [hlt, ↓reduceIte]
+        exact (List.take_prefix _ _).trans hk
+      · cases h2 : (runSync {} evs).2 <;> simp [hlt, h2, hk]
+  | some n =>
+    have hk := key (evs.take n) (Or.inl ⟨n, rfl⟩)
+    cases f with
+    | none => cases h2 : (runSync {} (evs.take n)).2 <;> simp [h2, hk]
+    | some k =>
+      by_cases hlt : k < (runSync {} (evs.take n)).1.length
+      · simp only [hlt, ↓reduceIte]
+        exact (List.take_prefix _ _).trans hk
+      · cases h2 : (runSync {} (evs.take n)).2 <;> simp [hlt, h2, hk]
+
+/-- A `Send` that fails at message `k` of a stream that would have carried more than `k`
+messages ends the call there: exactly the first `k` reports were delivered. -/
+theorem ends_sendFailed (evs : List EvE) (k : Nat) (h : k < (runSync {} evs).1.length) :
+    runEnds evs none (some k) = ((runSync {} evs).1.take k, .sendFailed) := by
+  simp [runEnds, h]
+
+/-- A context cancelled after `n` callbacks none of which ended the stream: the call returns
+`context.Canceled` after exactly the changes of those `n` callbacks. -/
+theorem ends_canceled (evs : List EvE) (n : Nat) (h : (runSync {} (evs.take n)).2 = none) :
+    runEnds evs (some n) none = ((run ((evs.take n).map EvE.toEv)).2, .canceled) := by
+  have := (sync_reports (evs.take n)).1 h
+  simp [runEnds, h, this]
+
+/-- Without cancellation and send failure `runEnds` is the stream of `runSync`. -/
+theorem ends_plain (evs : List EvE) :
+    (runEnds evs none none).1 = (runSync {} evs).1 ∧
+      ((runEnds evs none none).2 = .open ↔ (runSync {} evs).2 = none) := by
+  unfold runEnds
+  cases h : (runSync {} evs).2 <;> simp [h]
+
+/-! ### the consumer: `LookupRpcServiceResolver` -/
+
+/-- No response of the server says both "exists" and "removed". -/
+theorem step_not_both (s : St) (e : Ev) : ∀ m ∈ (step s e).2, (m.exist && m.removed) = false := by
+  intro m hm
+  cases e with
+  | added id isSvc =>
+    simp only [step] at hm
+    split at hm
+    · simp at hm
+    · split at hm
+      · simp at hm; subst hm; rfl
+      · simp at hm
+  | removed id =>
+    simp only [step] at hm
+    split at hm
+    · simp at hm
+    · split at hm
+      · simp at hm; subst hm; rfl
+      · simp at hm
+  | idle b =>
+    simp only [step] at hm
+    split at hm
+    · simp at hm
+    · simp at hm; subst hm; rfl
+
+theorem runFrom_not_both : ∀ (evs : List Ev) (s : St), ∀ m ∈ (runFrom s evs).2, (m.exist && m.removed) = false
+  | [], _, m, hm => by simp [runFrom] at hm
+  | e :: rest, s, m, hm => by
+    rw [runFrom_cons] at hm
+    rcases List.mem_append.mp hm with h | h
+    · exact step_not_both s e m h
+    · exact runFrom_not_both rest _ m h
+
+/-- The resolver's availability state is the receiver view `clientExists` of the stream (for
+responses that do not say both "exists" and "removed"). -/
+theorem resolverView_hasVal (msgs : List Msg) (v : ResolverView)
+    (hno : ∀ m ∈ msgs, (m.exist && m.removed) = false) :
+    (resolverView v msgs).hasVal = clientExists v.hasVal msgs := by
+  induction msgs generalizing v with
+  | nil => rfl
+  | cons m rest ih =>
+    simp only [resolverView, List.foldl_cons] at ih ⊢
+    rw [ih _ (fun x hx => hno x (List.mem_cons_of_mem _ hx))]
+    have hm := hno m (List.mem_cons_self)
+    simp only [clientExists, resolverStep]
+    revert hm
+    cases m.removed <;> cases m.exist <;> cases v.hasVal <;> simp
+
+/-- The production consumer holds its proxy value exactly while the remote has a provider. -/
+theorem resolver_exists_faithful (evs : List Ev) (h : Fresh [] evs) :
+    (resolverView {} (run evs).2).hasVal = !(liveAfter [] evs).isEmpty := by
+  have hno : ∀ m ∈ (run evs).2, (m.exist && m.removed) = false := runFrom_not_both evs {}
+  rw [resolverView_hasVal _ _ hno]
+  exact (view_faithful evs h).1
+
+/-- Its idle mark is sticky: idle iff it started idle or was ever told "idle". -/
+theorem resolver_idle_sticky (msgs : List Msg) (v : ResolverView) :
+    (resolverView v msgs).idle = (v.idle || msgs.any (·.idle)) := by
+  induction msgs generalizing v with
+  | nil => simp [resolverView]
+  | cons m rest ih =>
+    simp only [resolverView, List.foldl_cons] at ih ⊢
+    rw [ih]
+    simp only [resolverStep, List.any_cons]
+    cases m.idle <;> cases v.idle <;> simp
+
+/-- It never misses idleness: whenever the remote lookup is idle, the resolver is marked idle. -/
+theorem resolver_idle_partial (evs : List Ev) (hf : Fresh [] evs) (h : idleAfter false evs = true) :
+    (resolverView {} (run evs).2).idle = true := by
+  rw [resolver_idle_sticky]
+  have hv : clientIdle false (run evs).2 = true := by rw [(view_faithful evs hf).2]; exact h
+  -- the last reported idle state is `true`, so some report says idle
+  have key : ∀ (msgs : List Msg) (cur : Bool), clientIdle cur msgs = true → cur = true ∨ msgs.any (·.idle) = true := by
+    intro msgs
+    induction msgs with
+    | nil => intro cur hh; exact Or.inl (by simpa [clientIdle] using hh)
+    | cons m rest ih =>
+      intro cur hh
+      simp only [clientIdle] at hh
+      rcases ih _ hh with h1 | h1
+      · by_cases hm : (m.exist || m.removed) = true
+        · simp only [hm, ↓reduceIte] at h1
+          exact Or.inl h1
+        · simp only [hm, Bool.false_eq_true, ↓reduceIte] at h1
+          right; simp [h1]
+      · right; simp [h1]
+  rcases key _ _ hv with h1 | h1
+  · simp at h1
+  · simp [h1]
+
+/-- REFUTED: "the resolver is marked idle exactly while the remote lookup is idle". It is never
+marked busy again: after idle, busy the remote is busy and the resolver still idle (observation:
+`Resolve` only ever calls `MarkIdle(true)`; replayed on the real resolver every run). -/
+theorem resolver_idle_faithful_false :
+    ¬ (∀ evs : List Ev, Fresh [] evs → (resolverView {} (run evs).2).idle = idleAfter false evs) := by
+  intro h
+  have := h [.idle true, .idle false] (by simp [Fresh])
+  exact absurd this (by decide)
+
 /-! ### non-vacuity -/
 
 /-- The contract is satisfiable by a history that exercises every kind of report. -/
@@ -332,6 +497,21 @@ example : runSync {} [.ev (.added 1 true), .idleErrs true [none, some (.other 7)
       ([Msg.mkExists], some (.other 7)) ∧
     runSync {} [.idleErrs true [some .canceled], .ev (.idle false), .idleErrs true [some (.other 1)]] =
       ([Msg.mkIdle true, Msg.mkIdle false, Msg.mkIdle true], none) := by decide
+
+/-- The three other ends are inhabited: cancel after the first of two changes, the second `Send`
+failing, and a send failure that comes before a resolver error would have ended the stream. -/
+example : runEnds [.ev (.added 1 true), .ev (.idle true)] (some 1) none = ([Msg.mkExists], .canceled) ∧
+    runEnds [.ev (.added 1 true), .ev (.idle true), .ev (.removed 1)] none (some 1) = ([Msg.mkExists], .sendFailed) ∧
+    runEnds [.ev (.added 1 true), .idleErrs true [some (.other 3)]] none (some 0) = ([], .sendFailed) ∧
+    runEnds [.ev (.added 1 true), .idleErrs true [some (.other 3)]] (some 2) (some 1) = ([Msg.mkExists], .resolverErr (.other 3)) := by
+  decide
+
+/-- The consumer over a history that satisfies the bus contract: provider, idle, busy, provider
+gone — no value left, still marked idle. -/
+example : Fresh [] [.added 1 true, .idle true, .idle false, .removed 1] ∧
+    resolverView {} (run [.added 1 true, .idle true, .idle false, .removed 1]).2 = ⟨false, true⟩ ∧
+    resolverView {} (run [.added 1 true, .idle true]).2 = ⟨true, true⟩ := by
+  refine ⟨by simp [Fresh], by decide, by decide⟩
 
 /-- `call_dispatch_exact` / `call_never_other` are not vacuous: a served and an unserved call. -/
 example : callRpcService none (fun sid _ => sid == [97]) (marshalComponentID ⟨[97], [98]⟩) = .ok [97] [98] ∧
